@@ -190,8 +190,9 @@ def obligations(tier):
                           bounds='one ATOM line; every character of columns 7-11 (decimal / upper / lower hybrid-36 serials), 12, 21, 28-30, 55-66 and 67-80 symbolic',
                           claim_doc='name, coordinates, residue number/name, chain, type, insertion code, element, residue_label are concrete and equal to the reference',
                           max_paths=20000))
-    for name in (['tri_HIS', 'tri_ARG', 'tri_ASN', 'pair_GLU_ARG_TYR', 'pep_close_hydrogens'] if tier == 'quick' else
-                 ['pep_close_hydrogens', 'tri_HIS', 'tri_ARG', 'tri_ASN', 'tri_GLN', 'tri_TRP', 'tri_ASP', 'tri_LYS', 'tri_TYR', 'tri_SER', 'tri_PRO', 'pep8', 'pair_GLU_ARG_TYR', 'pair_ASP_ARG', 'pair_LYS_ASP', 'cterm_PHE']):
+    # ('name$n': residue n made the C-terminus -- a hydroxyl / thiol / amine four bonds from the terminal carboxylate)
+    for name in (['tri_HIS', 'tri_ARG', 'tri_ASN', 'pair_GLU_ARG_TYR', 'pep_close_hydrogens', 'tri_SER$37', 'tri_THR$4'] if tier == 'quick' else
+                 ['pep_close_hydrogens', 'tri_SER$37', 'tri_THR$4', 'tri_CYS$67', 'tri_LYS$14', 'tri_HIS', 'tri_ARG', 'tri_ASN', 'tri_GLN', 'tri_TRP', 'tri_ASP', 'tri_LYS', 'tri_TYR', 'tri_SER', 'tri_PRO', 'pep8', 'pair_GLU_ARG_TYR', 'pair_ASP_ARG', 'pair_LYS_ASP', 'cterm_PHE']):
         obs.append(Obligation('O3-protonate-all-and-keep-protons[%s]' % name, mk_option_equivalence(name),
                               code=['propka/hydrogens.py:setup_bonding_and_protonation', 'propka/protonate.py:Protonate.protonate', 'propka/protonate.py:Protonate.protonate_atom',
                                     'propka/input.py:get_atom_lines_from_pdb (keep_protons)', 'propka/run.py:single (whole pipeline)'],
